@@ -926,7 +926,16 @@ class Explorer:
                     self._finish(st, "stop:" + cname)
                     return
                 # models
-                if short in ("min", "max") and ("cmp::" in cname or re.search(r"<[ui](8|16|32|64|128|size) as Ord>::", cname)) and len(args) == 2:
+                cm = next((fn_ for suf, fn_ in getattr(self, "call_models", {}).items() if cname.endswith(suf)), None)
+                if cm is not None:
+                    rv = cm(st, args)   # a spec-supplied contract for an otherwise opaque callee
+                elif cname.endswith("as Try>::branch") and len(args) == 1 and isinstance(args[0], Adt) and args[0].discr is not None:
+                    # `?` on a modelled Result/Option: Ok/Some (0/1) -> Continue(payload), Err/None -> Break
+                    d = args[0].discr
+                    if "Option" in args[0].name:
+                        d = z3.If(d == 1, z3.BitVecVal(0, 64), z3.BitVecVal(1, 64))
+                    rv = Adt("ControlFlow::Continue?", list(args[0].items), discr=d)
+                elif short in ("min", "max") and ("cmp::" in cname or re.search(r"<[ui](8|16|32|64|128|size) as Ord>::", cname)) and len(args) == 2:
                     a = self.coerce_bv(args[0], args[1].width if isinstance(args[1], BV) else None)
                     b = self.coerce_bv(args[1], a.width)
                     if a.width != b.width:
